@@ -54,7 +54,7 @@ func isV4(ip net.IP) bool { return ip.To4() != nil }
 // C11 — announced peers come back from get_peers, and only those, per BEP 5/32.
 func c11(c *evid.Ctx) {
 	r := c.R.Fork("c11")
-	nh := c.Scale(200, 10000)
+	nh := c.Scale(200, 4000)
 	for h := 0; h < nh && c.NumViolations() < 20; h++ {
 		cs := &countingStore{inner: &peer_store.InMemory{}}
 		n, err := srv.New(dht.ServerConfig{NoSecurity: true, PeerStore: cs})
